@@ -292,7 +292,7 @@ MessageQueue_enqueueASDU(MessageQueue self, CS101_ASDU asdu)
             /* put new message at beginning of buffer */
             nextMsgPtr = self->buffer;
 
-            if (self->lastEntry > self->firstEntry)
+            if (self->lastEntry >= self->firstEntry)
                 self->lastInBufferEntry = self->lastEntry;
         }
 
